@@ -47,6 +47,9 @@ func (fr *Frame) doCall(cc *ssa.CallCommon, pos token.Pos, resType types.Type) V
 		return fr.callStatic(clo.Fn, args, clo.Bindings, pos, resType)
 	default:
 		v := fr.value(cc.Value)
+		if v.CloAlts != nil {
+			return fr.callAlts(v.CloAlts, args, pos, resType)
+		}
 		if v.Clo != nil {
 			if v.Clo.Recv != nil {
 				return fr.callStatic(v.Clo.Fn, append([]Val{*v.Clo.Recv}, args...), v.Clo.Bindings, pos, resType)
@@ -56,6 +59,51 @@ func (fr *Frame) doCall(cc *ssa.CallCommon, pos token.Pos, resType types.Type) V
 		c.opaque["dynamic-call"]++
 		return fr.opaqueResult("dyncall", resType, nil, true, nil)
 	}
+}
+
+// callAlts calls a function value that is one of several statically known closures: each alternative is
+// executed under its condition and the results and states are merged.
+func (fr *Frame) callAlts(alts []CloAlt, args []Val, pos token.Pos, resType types.Type) Val {
+	c := fr.ctx
+	base := fr.cur
+	baseReach := fr.curReach
+	var conds []*Term
+	var sts []*State
+	var vals []Val
+	var reaches []*Term
+	var nilCond []*Term
+	for _, a := range alts {
+		if a.Clo == nil {
+			nilCond = append(nilCond, a.Cond)
+			continue
+		}
+		fr.cur = base.clone()
+		fr.curReach = And(baseReach, a.Cond)
+		var v Val
+		if a.Clo.Recv != nil {
+			v = fr.callStatic(a.Clo.Fn, append([]Val{*a.Clo.Recv}, args...), a.Clo.Bindings, pos, resType)
+		} else {
+			v = fr.callStatic(a.Clo.Fn, args, a.Clo.Bindings, pos, resType)
+		}
+		conds = append(conds, a.Cond)
+		sts = append(sts, fr.cur)
+		vals = append(vals, v)
+		reaches = append(reaches, fr.curReach)
+	}
+	fr.curReach = baseReach
+	if len(nilCond) > 0 {
+		c.oblige(fr, "nil", "call of nil func", Not(Or(nilCond...)), pos)
+	}
+	if len(conds) == 0 {
+		fr.cur = base
+		return fr.opaqueResult("nilcall", resType, nil, true, nil)
+	}
+	fr.cur = mergeStates(conds, sts)
+	fr.curReach = Or(reaches...)
+	if _, isTup := resType.(*types.Tuple); isTup && resType.(*types.Tuple).Len() == 0 {
+		return Val{}
+	}
+	return mergeVals(conds, vals)
 }
 
 func tupleOrSingle(res []Val, resType types.Type) Val {
@@ -73,6 +121,9 @@ func tupleOrSingle(res []Val, resType types.Type) Val {
 
 func (fr *Frame) invoke(cc *ssa.CallCommon, recv Val, args []Val, pos token.Pos, resType types.Type) Val {
 	c := fr.ctx
+	if v, ok := fr.ioInvoke(cc, recv, args, pos, resType); ok {
+		return v
+	}
 	name := fmt.Sprintf("invoke.%s.%s", typeKey(cc.Value.Type()), cc.Method.Name())
 	// error.Error() etc are irrelevant; interface methods are assumed pure and state-independent (listed assumption)
 	c.opaque["interface-method:"+cc.Method.Name()]++
@@ -160,7 +211,7 @@ func (fr *Frame) callStatic(fn *ssa.Function, args []Val, bindings []Val, pos to
 		}
 	}
 	inGeo := fn.Pkg != nil && strings.HasPrefix(fn.Pkg.Pkg.Path(), geoModule)
-	isAnon := fn.Parent() != nil
+	isAnon := fn.Parent() != nil || fn.Synthetic != ""
 	if (inGeo || isAnon) && len(fn.Blocks) > 0 && !c.onStack(fn) && fr.depth < c.eng.maxDepth && c.budget > 0 {
 		ct := c.eng.contractOf(fn)
 		res, st, ret := c.runFunc(fn, args, bindings, fr.cur, fr.abs(), fr, frameOpts{prefix: shortName(fn), contract: ct})
@@ -253,10 +304,16 @@ func (fr *Frame) havocReachable(fn *ssa.Function, args []Val) {
 	ep := newEpoch("after_"+sanitize(fn.Name()), nil)
 	ns := &State{m: map[string]*Term{}, epoch: ep}
 	for k, v := range fr.cur.m {
-		if strings.HasPrefix(k, "cell:") {
+		if strings.HasPrefix(k, "cell:") || strings.HasPrefix(k, "ghost:") || strings.HasPrefix(k, "lock:") {
 			ns.m[k] = v
 		}
 	}
+	// objects stay allocated; the callee may allocate more
+	oldAlive := fr.cur.get("alive", SArray(SRef, SBool))
+	newAlive := FreshVar("alive_after_"+sanitize(fn.Name()), SArray(SRef, SBool))
+	qa := BoundVar("r", SRef)
+	c.assume(Forall([]*Term{qa}, Implies(Select(oldAlive, qa), Select(newAlive, qa))))
+	ns.m["alive"] = newAlive
 	// keys not yet materialised in the old epoch also become fresh (new epoch has no parent link)
 	// locals passed by address are havocked too
 	for _, a := range args {
@@ -297,8 +354,10 @@ func (fr *Frame) useContract(fn *ssa.Function, ct *Contract, args []Val, pos tok
 			}
 		}
 	}}
+	preState := fr.cur
 	_, post, _ := c.runFuncSpec(gen, full, st, fr.abs(), fr, mk, sub)
 	fr.cur = post
+	fr.recordStreamRead(fn, ct, args, mk, preState)
 	return tupleOrSingle(mk.results, resType)
 }
 
@@ -313,8 +372,12 @@ type specRun struct {
 // (no panic obligations); vcRequires / vcEnsures / vcInvariant calls are reported through sub.onClause.
 func (c *Ctx) runFuncSpec(gen *ssa.Function, args []Val, st *State, reach *Term, parent *Frame, mk *markerInfo, sub *specRun) ([]Val, *State, *Term) {
 	saved := c.curSpec
+	savedMk := c.curMk
 	c.curSpec = sub
-	defer func() { c.curSpec = saved }()
+	if mk != nil {
+		c.curMk = mk
+	}
+	defer func() { c.curSpec = saved; c.curMk = savedMk }()
 	return c.runFunc(gen, args, nil, st, reach, parent, frameOpts{spec: true, marker: mk})
 }
 
@@ -344,6 +407,12 @@ func (fr *Frame) markerCall(fn *ssa.Function, args []Val, pos token.Pos, resType
 	case "use":
 		// havoc what the contract allows to change
 		fr.applyModifies(mk, args)
+		// ghost event flags can only be raised by the callee
+		if strings.Contains(strings.Join(mk.contract.Modifies, ","), ".err") {
+			for _, gk := range []string{"ghost:readFailed", "ghost:errRaised"} {
+				fr.cur.set(gk, Or(fr.cur.get(gk, SBool), FreshVar("raised", SBool)))
+			}
+		}
 		var res []Val
 		n := fn.Signature.Results().Len()
 		det := mk.contract.Flags["pure"] != "" || mk.contract.Flags["deterministic"] != ""
@@ -602,22 +671,54 @@ func (fr *Frame) specHelper(name string, fn *ssa.Function, args []Val, pos token
 			return Val{T: Forall([]*Term{q}, body)}, true
 		}
 		return Val{T: Exists([]*Term{q}, body)}, true
+	case "vcOldBind":
+		k, _ := args[0].T.IsLitBV()
+		if c.oldBinds != nil {
+			c.oldBinds[int(k)] = args[1]
+		}
+		return Val{}, true
+	case "vcOldGet":
+		k, _ := args[0].T.IsLitBV()
+		if v, ok := c.oldBinds[int(k)]; ok {
+			return v, true
+		}
+		unsupported("old() in a loop invariant could not be bound")
 	case "vcSame":
 		a, b := args[0].term(), args[1].term()
 		if a == nil || b == nil {
 			unsupported("vcSame on non-term values")
 		}
 		return Val{T: Eq(a, b)}, true
+	case "vcErrorRaised":
+		er := fr.cur.get("ghost:errRaised", SBool)
+		c.prefer = append(c.prefer, Not(er))
+		return Val{T: Or(fr.cur.get("ghost:readFailed", SBool), er)}, true
 	case "vcArr":
 		return Val{T: DataField_(args[0].T, 0)}, true
 	case "vcOff":
 		return Val{T: DataField_(args[0].T, 1)}, true
 	case "vcLen":
 		return Val{T: DataField_(args[0].T, 2)}, true
-	case "vcFresh":
-		return Val{T: And(Not(Select(c.alive0, args[0].term())), Not(Eq(args[0].term(), BVLit(0, 64))))}, true
-	case "vcFreshSlice":
-		return Val{T: Or(Eq(DataField_(args[0].T, 0), BVLit(0, 64)), Not(Select(c.alive0, DataField_(args[0].T, 0))))}, true
+	case "vcFresh", "vcFreshSlice":
+		// allocated during the call: not alive at the contract's entry (and alive afterwards)
+		base := c.alive0
+		if c.curMk != nil && c.curMk.pre != nil {
+			base = c.curMk.pre.get("alive", SArray(SRef, SBool))
+		}
+		ref := args[0].term()
+		if base0 := base; fn.Origin() != nil && fn.Origin().Name() == "vcFreshSlice" || fn.Name() == "vcFreshSlice" {
+			_ = base0
+			ref = DataField_(args[0].T, 0)
+			return Val{T: Or(Eq(ref, BVLit(0, 64)), Not(Select(base, ref)))}, true
+		}
+		if c.curMk != nil && c.curMk.mode == "use" && c.curMk.done {
+			cur := fr.cur.get("alive", SArray(SRef, SBool))
+			fr.cur.set("alive", Store(cur, ref, TTrue))
+			if c.curMk.callerFrame != nil {
+				c.curMk.freshRefs = append(c.curMk.freshRefs, ref)
+			}
+		}
+		return Val{T: And(Not(Select(base, ref)), Not(Eq(ref, BVLit(0, 64))))}, true
 	case "vcIsNaN":
 		return Val{T: App("fp.isNaN", SBool, args[0].T)}, true
 	case "vcBits":
